@@ -235,7 +235,9 @@ fn main() {
                     }
                 }
                 2 => {
-                    // in-command edit window: second save without snapshot in a later granule
+                    // in-command edit window: second save without snapshot in a later granule;
+                    // the edit keeps / changes the size, or is a chmod; the final snapshot is done
+                    // by a reloaded process or by the process that did the second save
                     shape = "in-command edit, save without snapshot";
                     let c1 = rng.range(1, 3);
                     let c2 = 1 + (c1 % 3);
@@ -243,10 +245,16 @@ fn main() {
                     evs.push(Ev::Load(clk.same_granule(&mut rng)));
                     evs.push(Ev::Snapshot(clk.same_granule(&mut rng)));
                     evs.push(Ev::Save(clk.same_granule(&mut rng)));
-                    evs.push(Ev::Write(clk.same_granule(&mut rng), false, c2, 4));
+                    match rng.below(4) {
+                        0 => evs.push(Ev::Write(clk.same_granule(&mut rng), false, c2, 5)),
+                        1 => evs.push(Ev::Chmod(clk.same_granule(&mut rng), true)),
+                        _ => evs.push(Ev::Write(clk.same_granule(&mut rng), false, c2, 4)),
+                    }
                     evs.push(Ev::Load(clk.tick(&mut rng)));
                     evs.push(Ev::Save(clk.next_granule(&mut rng)));
-                    evs.push(Ev::Load(clk.tick(&mut rng)));
+                    if rng.chance(1, 2) {
+                        evs.push(Ev::Load(clk.tick(&mut rng)));
+                    }
                     evs.push(Ev::Snapshot(clk.tick(&mut rng)));
                 }
                 3 | 4 | 5 => {
